@@ -114,10 +114,12 @@ CLAIMS = {
             "Narrow: only the part of the property that is code in open_with_min_len is decided. On a file-system model with symbolic file length, "
             "symbolic min_len and a symbolic 'locked by another holder' flag per file, the solver shows over the ghost event log of the real code that "
             "no file is opened truncating, that the data-file lock attempt precedes any resize or sync, that an open refused on the data-file lock has "
-            "resized, synced and written nothing, and that a successful open holds both locks.",
-            "NOT decided: that the kernel's advisory lock really excludes a second open file description (other thread / other process), release of the lock "
-            "when the last handle, region-derived reference or reader goes away, and that a later open sees the flushed data (Regions::fill is stubbed; "
-            "slot decoding is C17). open_read_only_file and clones sharing the locked descriptor are not examined.",
+            "resized, synced and written nothing, and that a successful open holds both locks; a second harness runs the real drop glue and shows that both "
+            "locks are held while any Database handle is alive and are released with the last one even if a consumer still holds a file from "
+            "open_read_only_file (modelled flock semantics: a lock lives as long as a handle on the locking open-file description).",
+            "NOT decided: that the kernel's advisory lock really excludes a second open file description (other thread / other process); lifetime extension "
+            "through region-derived references, readers and background tasks (only handle clones are exercised); that a later open sees the flushed data "
+            "(Regions::fill is stubbed; slot decoding is C17).",
             "event-order assertions over the ghost log of one open call", "4 (C18 row), 5"),
     "C19": ("model_checking",
             "validate_computed_version_or_reset + compute_transform over the storage model with symbolic recorded vs presented versions: changed => reset, "
